@@ -23,39 +23,39 @@ type bounds struct {
 }
 
 type harnessResult struct {
-	Name         string            `json:"harness"`
-	Paths        int               `json:"paths"`
-	Status       map[string]int    `json:"path_end_status"`
-	Decisions    int               `json:"decisions"`
-	Obligations  int               `json:"obligations"`
-	Trivial      int               `json:"obligations_concrete"`
-	Discharged   int               `json:"discharged"`
-	Candidates   int               `json:"candidates"`
-	Undischarged int               `json:"undischarged"`
-	Unsupported  map[string]int    `json:"unsupported,omitempty"`
-	EngineErrors map[string]int    `json:"engine_errors,omitempty"`
-	Undis        map[string]int    `json:"undischarged_detail,omitempty"`
-	Notes        map[string]int    `json:"notes,omitempty"`
-	Failures     []*failure        `json:"-"`
-	Witness      map[string]model  `json:"-"`
-	Steps        int64             `json:"ssa_instructions_executed"`
-	Funcs        map[string]int    `json:"-"`
-	Seconds      float64           `json:"seconds"`
-	BudgetHit    bool              `json:"path_budget_hit"`
-	Solver       solverStats       `json:"solver"`
-	FeasQueries  int               `json:"feasibility_queries"`
-	ModelHits    int               `json:"feasibility_by_model"`
-	IntervalHits int               `json:"feasibility_by_variable_bounds"`
+	Name         string           `json:"harness"`
+	Paths        int              `json:"paths"`
+	Status       map[string]int   `json:"path_end_status"`
+	Decisions    int              `json:"decisions"`
+	Obligations  int              `json:"obligations"`
+	Trivial      int              `json:"obligations_concrete"`
+	Discharged   int              `json:"discharged"`
+	Candidates   int              `json:"candidates"`
+	Undischarged int              `json:"undischarged"`
+	Unsupported  map[string]int   `json:"unsupported,omitempty"`
+	EngineErrors map[string]int   `json:"engine_errors,omitempty"`
+	Undis        map[string]int   `json:"undischarged_detail,omitempty"`
+	Notes        map[string]int   `json:"notes,omitempty"`
+	Failures     []*failure       `json:"-"`
+	Witness      map[string]model `json:"-"`
+	Steps        int64            `json:"ssa_instructions_executed"`
+	Funcs        map[string]int   `json:"-"`
+	Seconds      float64          `json:"seconds"`
+	BudgetHit    bool             `json:"path_budget_hit"`
+	Solver       solverStats      `json:"solver"`
+	FeasQueries  int              `json:"feasibility_queries"`
+	ModelHits    int              `json:"feasibility_by_model"`
+	IntervalHits int              `json:"feasibility_by_variable_bounds"`
 	engineStacks map[string]string
 }
 
 type worker struct {
 	lastResult value
-	id  int
-	in  *interp
-	s   *solver
-	w   *world
-	err error
+	id         int
+	in         *interp
+	s          *solver
+	w          *world
+	err        error
 }
 
 func newInterp(w *world) *interp {
